@@ -90,7 +90,14 @@ def source(s, env):
     k = s[0]
     if k == "t":
         name, alias, schema = s[1], s[2] if len(s) > 2 else None, s[3] if len(s) > 3 else None
-        t = Table(name, schema=schema, alias=alias)
+        if alias:
+            # the usual way to get an aliased table: a table that has been in use (hashed, compared) and is renamed
+            # afterwards; anything memoised on the un-aliased table must not travel into the renamed copy
+            t0 = Table(name, schema=schema)
+            {t0: 1}, t0 == t0, str(t0)
+            t = t0.as_(alias)
+        else:
+            t = Table(name, schema=schema)
         env.sym[alias or name] = t
         return t
     if k == "q":
